@@ -86,6 +86,18 @@ L4 == [name |-> "L4", linear |-> TRUE, vars |-> <<"x">>, logv |-> {}, shocks |->
        roots |-> <<Q(1, 2), R(2), R(3)>>, fwd |-> 2]
 L4Rk(k) == << <<RSub(ThirdPow(k + 1), HalfPow(k + 1))>> >>
 
+\* a lead and a second lag: (F - 2)(1 - 1/2 L)(1 - 1/3 L) x = -(ex + 2/3), i.e.
+\*   x{+1} - 17/6 x + 11/6 x{-1} - 1/3 x{-2} + ex + 2/3 = 0 ;  xl = x{-1}  (xl only carries the second lag in the reduced form:
+\*   state (x, xl), x_t = 5/6 x_{t-1} - 1/6 xl_{t-1} + 2/3 + sum_k (1/2)^(k+1) ex_{t+k})
+L10 == [name |-> "L10", linear |-> TRUE, vars |-> <<"x", "xl">>, logv |-> {}, shocks |-> <<"ex">>,
+        eqs |-> << [tx |-> << <<R(1), 1, 1>>, <<Q(-17, 6), 1, 0>>, <<Q(11, 6), 1, -1>>, <<Q(-1, 3), 1, -2>> >>, te |-> << <<R(1), 1>> >>, c |-> Q(2, 3)],
+                   [tx |-> << <<R(1), 2, 0>>, <<R(-1), 1, -1>> >>, te |-> <<>>, c |-> RZero] >>,
+        mvars |-> <<"obs">>, mshocks |-> <<"w">>,
+        meqs |-> << [tx |-> << <<R(1), 1, 0>>, <<R(1), 1, -2>> >>, d |-> R(-1), tw |-> << <<R(1), 1>> >>] >>,
+        T |-> << <<Q(5, 6), Q(-1, 6)>>, <<R(1), RZero>> >>, K |-> <<Q(2, 3), RZero>>,
+        roots |-> <<Q(1, 2), Q(1, 3), R(2), RZero>>, fwd |-> 1]
+L10Rk(k) == << <<HalfPow(k + 1)>>, <<RZero>> >>
+
 \* root-count instances: both roots stable (indeterminate) / both unstable (no stable solution)
 L7 == [name |-> "L7", linear |-> TRUE, vars |-> <<"x">>, logv |-> {}, shocks |-> <<"ex">>,
        eqs |-> << [tx |-> << <<R(6), 1, 1>>, <<R(-5), 1, 0>>, <<R(1), 1, -1>> >>, te |-> << <<R(1), 1>> >>, c |-> RZero] >>,
@@ -94,10 +106,10 @@ L8 == [name |-> "L8", linear |-> TRUE, vars |-> <<"x">>, logv |-> {}, shocks |->
        eqs |-> << [tx |-> << <<R(1), 1, 1>>, <<R(-5), 1, 0>>, <<R(6), 1, -1>> >>, te |-> << <<R(1), 1>> >>, c |-> RZero] >>,
        mvars |-> <<>>, mshocks |-> <<>>, meqs |-> <<>>, T |-> <<>>, K |-> <<>>, roots |-> <<R(2), R(3)>>, fwd |-> 1]
 
-Model(id) == CASE id = "L1" -> L1 [] id = "L2" -> L2 [] id = "L3" -> L3 [] id = "L6" -> L6 [] id = "L9" -> L9 [] id = "L4" -> L4
+Model(id) == CASE id = "L1" -> L1 [] id = "L2" -> L2 [] id = "L3" -> L3 [] id = "L6" -> L6 [] id = "L9" -> L9 [] id = "L4" -> L4 [] id = "L10" -> L10
                [] id = "L7" -> L7 [] id = "L8" -> L8
-Rk(id, k) == CASE id = "L1" -> L1Rk(k) [] id = "L2" -> L2Rk(k) [] id = "L3" -> L3Rk(k) [] id = "L6" -> L6Rk(k) [] id = "L9" -> L9Rk(k) [] id = "L4" -> L4Rk(k)
-SolvableIds == {"L1", "L2", "L3", "L4", "L6", "L9"}
+Rk(id, k) == CASE id = "L1" -> L1Rk(k) [] id = "L2" -> L2Rk(k) [] id = "L3" -> L3Rk(k) [] id = "L6" -> L6Rk(k) [] id = "L9" -> L9Rk(k) [] id = "L4" -> L4Rk(k) [] id = "L10" -> L10Rk(k)
+SolvableIds == {"L1", "L2", "L3", "L4", "L6", "L9", "L10"}
 
 \* ---- source text -----------------------------------------------------------------------------------
 RatStr(q) == IF q[2] = 1 THEN "(" \o ToString(q[1]) \o ")" ELSE "(" \o ToString(q[1]) \o "/" \o ToString(q[2]) \o ")"
